@@ -139,6 +139,20 @@ impl Channel {
 
     /// Sets the channel busy, announcing that the message will be trabńsmitted
     /// in '`sim_time`' time units.
+    /// (busy, transmission finish time, queued packets, accounted bytes, actual bytes of queued packets)
+    #[cfg(petrichorit_des_verif)]
+    #[must_use]
+    pub fn verif_state(&self) -> (bool, SimTime, usize, usize, usize) {
+        let chan = self.inner.read().unwrap();
+        (
+            chan.busy,
+            chan.transmission_finish_time,
+            chan.buffer.packets.len(),
+            chan.buffer.acc_bytes,
+            chan.buffer.packets.iter().map(|(msg, _)| msg.length()).sum(),
+        )
+    }
+
     pub(crate) fn set_busy_until(&self, sim_time: SimTime) {
         let mut chan = self.inner.write().unwrap();
         chan.busy = true;
